@@ -117,6 +117,18 @@ def symbolic_programs():
         lines.append('li %s, K16' % rd)
         lines.append('beq %s, Z, 8' % rd)
         lines.append('jal Z, K16')
+    # immediates written as expressions with every operator at top level (a compression rule may not rebuild the operand text)
+    def exprs(v):
+        out = ['%d + 3 - 3' % v, '(%d)' % v, '%d | 0' % v, '%d & -1' % v, '%d ^ 0' % v, '%d // 2' % (v * 2), '~%d' % ~v, '- %d' % -v, '%d * 1' % v, '%d %% 0x100000000' % v if v >= 0 else '%d + 0' % v]
+        if v >= 0:
+            out += ['%d >> 1' % (v * 2), '%d << 1' % (v // 2) if v % 2 == 0 else '%d << 0' % v, '%d >> 12' % (v << 12)]
+        return out
+    for tmpl, v in (('lui x8, {}', 0xfffff), ('lui x8, {}', 0xfffe0), ('lui x9, {}', 5), ('lui x8, {}', -1), ('addi x8, x8, {}', 4), ('addi x8, x8, {}', -32), ('addi x2, x2, {}', 496),
+                    ('addi x2, x2, {}', -512), ('addi x9, x2, {}', 1020), ('lw x8, x9, {}', 124), ('sw x8, x9, {}', 4), ('lw x5, x2, {}', 252), ('sw x2, x5, {}', 252),
+                    ('andi x8, x8, {}', -1), ('andi x9, x9, {}', 31), ('addi x8, x0, {}', -32), ('jal x0, {}', 2046), ('jal x1, {}', -2048), ('beq x8, x0, {}', 254),
+                    ('bne x9, x0, {}', -256), ('jalr x0, x1, {}', 0), ('c.lui x8, {}', 0xfffe0), ('c.addi x8, {}', 31)):
+        for e in exprs(v):
+            lines.append(tmpl.format(e))
     for ln in lines:
         yield consts + [line(ln)]
     # several together (an earlier compression shifts later positions)
